@@ -105,7 +105,7 @@ MESHES = {
     "dgmesh": {"deg": 1, "h1": False, "gdim": 2, "tdim": 2, "text": "mesh with broken P1 coordinates"},
 }
 
-JAVA = "-DTLA-Library=/verif/spec -Xmx3g -Xmn256m -XX:ParallelGCThreads=2"
+JAVA = "-DTLA-Library=" + os.path.join(os.path.dirname(os.path.dirname(os.path.dirname(os.path.abspath(__file__)))), "spec") + " -Xmx3g -Xmn256m -XX:ParallelGCThreads=2"
 
 
 class Slice:
